@@ -65,6 +65,7 @@ struct Cfg {
   int         connect_mode = 0;     // 0: TCP connect() succeeds at once, 1: EINPROGRESS, later tcp-connected event
   bool        pending_write_cb = false;
   std::string hosts;     // hosts file content ("" = none)
+  std::string env_hosts; // content of a second hosts file named by $CARES_HOSTS ("" = variable unset); used by requests with ARES_AI_ENVHOSTS
   std::string sortlist;  // ares_set_sortlist string
   std::string hostaliases; // HOSTALIASES file content
   bool        local_bind = false;
